@@ -33,7 +33,9 @@ def run(res):
     # that the loop leaves and re-enters (or discards: clear_current / clear_next): it wakes on *world time*
     gm.check_and_replay(res, 'c08_world_time', gm.consts(MaxFrames=5 if th else 4), own={'ticks', 'order'},
                         walks=3000 if th else 300)
+    gm.non_vacuity(res, 'c08_world_time_late_wake')
     if th:
+        gm.model_only(res, 'c08_world_time_large', gm.consts(Hs={'A', 'B', 'C'}, Wait={'A': 3, 'B': 2, 'C': 1}, Incs={0, 1, 2}, MaxFrames=6, MaxGen=4))
         gm.check_and_replay(res, 'c08_world_time_3', gm.consts(Hs={'A', 'B', 'C'}, Wait={'A': 3, 'B': 2, 'C': 1}, MaxFrames=3),
                             own={'ticks', 'order'}, walks=0)
     # (B) recorded executions: 7 coroutines with random scripts (waits up to 7, in-body start/kill), random schedules
